@@ -27,7 +27,7 @@ ASSUMPTIONS = ['exact-arithmetic model; score compared under 1e-7 absolute (5e-5
                'ModelFixed built from several RDMs is outside the generated inputs (predict returns their mean, predict_rdm '
                'all of them)']
 METHODS = ['cosine', 'corr', 'cosine_cov', 'corr_cov']
-KINDS = ['regress', 'regress', 'regress_nn', 'regress_nn', 'select', 'interp', 'interp', 'predict', 'predict', 'optimize']
+KINDS = ['regress', 'regress', 'regress_nn', 'regress_nn', 'select', 'select', 'interp', 'interp', 'predict', 'predict', 'optimize']
 
 
 def gen_pos_vec(rng, m):
@@ -79,6 +79,13 @@ def generate(rng, tier):
         method = rng.choice(METHODS)
         ksel = nc if sel is None else len(sel)
         sigma = spd(rng, ksel) if (method.endswith('_cov') and rng.random() < 0.6) else None
+        if kind == 'select':
+            # candidates that are close competitors (noisy copies of one training RDM): the ranking is sensitive to the method
+            # and to sigma_k; whitened methods always get a sigma_k here
+            k = rng.randint(3, 5)
+            basis = [[max(1, x + rng.randint(-6, 6)) for x in data[0]] for _ in range(k)]
+            if method.endswith('_cov'):
+                sigma = spd(rng, ksel)
         if kind == 'optimize':
             method = rng.choice(['cosine', 'corr'])
             sigma = None
